@@ -259,7 +259,7 @@ type c04PodSt struct {
 	bound   bool // harness view: bound since the last delete (superset of the gang's BoundChildren)
 	flight  int  // 0 none, 1 parked at Permit (framework waiting map), 2 released (bind pending), 3 rejected (unreserve pending)
 	seenNode bool // an informer event of this pod incarnation carried a node name (it can never be empty again)
-	tainted bool // out-of-contract call on this pod: Permit while bound, PostBind without release, or an informer event whose node name went back to empty
+	tainted bool // a Permit was issued for the pod while it was bound: the scheduler never does that (framework contract); such a pod is exempt from the two-sets clause
 }
 
 func TestVerifC04(t *testing.T) {
@@ -580,8 +580,7 @@ func TestVerifC04(t *testing.T) {
 				pod.Status.Phase = []corev1.PodPhase{corev1.PodSucceeded, corev1.PodFailed}[r.Intn(2)]
 			}
 			if !term && !node && ps.seenNode {
-				ps.tainted = true
-				h.Tag("contract-breach:node-name-unset")
+				h.Tag("out-of-order:node-name-unset") // cannot come from an informer; the property must survive it anyway
 			}
 			fwB := begin()
 			if update {
@@ -676,8 +675,7 @@ func TestVerifC04(t *testing.T) {
 		doPostBind := func(ps *c04PodSt) {
 			pod, _ := mkPod(ps, "")
 			if ps.flight != 2 {
-				ps.tainted = true // PostBind without a preceding release from Permit
-				h.Tag("contract-breach:postbind-without-release")
+				h.Tag("out-of-order:postbind-without-release") // the property must survive it anyway
 			}
 			fwB := begin()
 			delete(fh.waiting, ps.id)
